@@ -85,14 +85,7 @@ func (c *FnCtx) frameEnv(p *Path, fr *frame, at *ssa.BasicBlock) map[string]Val 
 			}
 		}
 	}
-	for was, now := range c.eng.aliases(fr.fn) {
-		if _, has := env[was]; !has {
-			if v, ok := env[now]; ok {
-				env[was] = v
-				c.note("contract name '" + was + "' in " + fr.fn.Name() + " is bound to the renamed local '" + now + "'")
-			}
-		}
-	}
+	c.eng.aliasEnv(fr.fn, env)
 	return env
 }
 
